@@ -1072,6 +1072,7 @@ class CallCtx:
     def __init__(self, ex, st, callee, args, dest, nxt, work, ret_ty):
         self.ex, self.st, self.callee, self.args, self.dest, self.nxt, self.work, self.ret_ty = ex, st, callee, args, dest, nxt, work, ret_ty
         self.keep = None
+        self.name = strip_generics_tail(callee)
 
 
 class Diverge:
